@@ -526,6 +526,14 @@ func c19Custom(e *core.Env, rep *core.Report, bin, root string, r *rand.Rand, n 
 		// package b/util (same package NAME, other path): a function called Conv whose parameter c is the source
 		bUtil := "package util\n\ntype SB struct{ V int }\ntype TB struct{ V int }\n\n// Conv converts; its parameter c is the source.\nfunc Conv(c SB) TB { return TB{V: c.V} }\n\n" +
 			"type SK struct{ V int }\ntype TK struct{ V int }\n\n// G here takes k as the source.\nfunc G(k SK) TK { return TK{V: k.V} }\n"
+		// a METHOD that happens to have the name of a custom function: its doc comment is attached to the method, not to the function
+		meth := "\ntype Helper struct{}\n\n// goverter:context c\nfunc (Helper) Conv(c SB) TB { return TB{V: -1} }\n\n// goverter:context k\nfunc (*Helper) G(k SK) TK { return TK{V: -1} }\n"
+		if r.Intn(2) == 0 {
+			bUtil += meth
+		} else {
+			bUtil = strings.Replace(bUtil, "// Conv converts;", strings.TrimPrefix(meth, "\n")+"\n// Conv converts;", 1)
+			bUtil = strings.Replace(bUtil, "type Helper struct{}", "", 1) + "\ntype Helper struct{}\n"
+		}
 		first, second := "a", "b"
 		if r.Intn(2) == 0 {
 			first, second = "b", "a"
